@@ -13,6 +13,8 @@ CONSTANTS
   Dev_StaleScratch = FALSE
   Dev_MemoWriter = FALSE
   Dev_RollbackOnlyHeads = FALSE
+  Dev_CidByDigest = FALSE
+  Dev_KeepUnattached = FALSE
 INVARIANT Emit
 VIEW GView
 CHECK_DEADLOCK FALSE
